@@ -9,7 +9,7 @@ from . import common, progs, stream, findings
 
 class StreamSpec:
     def __init__(self, prop, probes, cfg, n_quick, n_thorough, nontrivial, rule, assumptions=None,
-                 extra_programs=None, clear_cache=False, design_ref='', extra_check=None):
+                 extra_programs=None, clear_cache=False, design_ref='', extra_check=None, evalcheck=False):
         self.prop = prop
         self.probes = probes
         self.cfg = cfg
@@ -20,6 +20,7 @@ class StreamSpec:
         self.assumptions = assumptions or []
         self.extra_programs = extra_programs or (lambda rng, tier: [])
         self.clear_cache = clear_cache
+        self.evalcheck = evalcheck       # cross-check the driver's memoised evaluator against the specification evaluator
         self.extra_check = extra_check   # (oc, tier, seed) -> dict merged into the coverage (clauses not decided over build programs)
 
 
@@ -71,6 +72,8 @@ def run(spec: StreamSpec, tier: str, seed: int) -> int:
     for k in range(n):
         programs.append(progs.gen_program(random.Random(rng.getrandbits(64)), spec.cfg))
     programs = [p + [['collisions']] for p in programs]     # model-only diagnostic used by the R3 matcher
+    if spec.evalcheck:
+        programs = [p + [['evalcheck', c] for c in range(sum(1 for x in p if x[0] in ('new', 'copy')))] for p in programs]
     results = evaluate(spec, programs, ambient)
 
     feats = {}
@@ -138,6 +141,21 @@ def run(spec: StreamSpec, tier: str, seed: int) -> int:
                           'program': small, 'first_difference': rr['dis'],
                           'implementation_answers': rr['impl'], 'model_answers': rr['model'],
                           'predicate_failures': rr['fails']}, found_input=found)
+    n_same = n_objs = 0
+    if spec.evalcheck:
+        for r in results:
+            for cmd, mo in zip(r['prog'], r['model']):
+                if cmd[0] != 'evalcheck' or not mo:
+                    continue
+                if mo.startswith('same'):
+                    n_same += 1
+                    n_objs += int(mo.split()[1])
+                elif mo.startswith('MISMATCH') and 'evalcheck' not in reported:
+                    reported.add('evalcheck')
+                    oc.violation({'property': prop, 'kind': 'evaluator-cross-check-broken',
+                                  'unchecked': "the driver's memoised evaluator (Eval.query) no longer agrees with the "
+                                               'specification evaluator evStart/evDur/evEnd the theorems are about',
+                                  'program': r['prog'], 'answer': mo[:2000]}, found_input=False)
     extra = {}
     if spec.extra_check is not None:
         extra = spec.extra_check(oc, tier, seed) or {}
@@ -165,6 +183,8 @@ def run(spec: StreamSpec, tier: str, seed: int) -> int:
         'traces_validated_against_impl': len(results) - n_dis,
         'disagreements': n_dis,
         'corpus_programs': len(corpus),
+        'evaluator_crosschecks': {'circuits_compared': n_same, 'objects_compared': n_objs,
+                                  'what': 'memoised evaluator of the driver = specification evaluator of the theorems, heaps of <= 30 objects'},
         'input_distribution': feats,
         'undefined_runs': undef_both,
         'implementation_exceptions': dict(exc),
